@@ -345,6 +345,9 @@ fn probe_input(w: &mut World, actor: &str, psbt: &Psbt, i: usize) {
         if w.mon.on("C13") && res.is_ok() {
             crate::mon_interp::check_interpreter_accepts(w, actor, &tx, i, p, res.as_ref().ok().unwrap());
         }
+        if w.mon.on("C13") && p.label == "get_satisfaction_mall" && w.violations.is_empty() {
+            crate::mon_interp::tamper(w, actor, &tx, i, &p.wit, &p.ss);
+        }
         if !w.violations.is_empty() {
             return;
         }
@@ -360,6 +363,9 @@ fn probe_input(w: &mut World, actor: &str, psbt: &Psbt, i: usize) {
     }
     if w.mon.on("C02") || w.mon.on("C07") || w.mon.on("C03") {
         crate::mon_ref::check_reference(w, actor, psbt, i, &produced, ok);
+    }
+    if w.mon.on("C13") && w.violations.is_empty() {
+        crate::mon_interp::reference_candidates(w, actor, &tx, i);
     }
     if w.mon.on("C17") || w.mon.on("C09") {
         crate::mon_plan::check_plan_vs_satisfier(w, actor, psbt, i, &produced, ok);
@@ -701,7 +707,7 @@ pub fn update_with_monitors(w: &mut World, psbt: &mut Psbt, i: usize, plan: Opti
 }
 
 pub fn probe_plan(w: &mut World, i: usize, assets: &Assets) {
-    if w.mon.on("C17") || w.mon.on("C11") {
+    if w.mon.on("C17") || w.mon.on("C11") || w.mon.on("C01") {
         crate::mon_plan::check_plan_from_assets(w, i, assets);
     }
 }
